@@ -11,7 +11,7 @@ import re
 from .. import oracle, pool
 from ..driver import chash, ddmin
 from ..rng import Rng, mix
-from ..sim import (ACT_ERRNO, CLS_CODE, CLS_INC, CLS_LIST, CLS_MAC, CLS_MAP, CLS_SHARE, EV_CLOSE, EV_OPEN, EV_SEEK, EV_WRITE,
+from ..sim import (ACT_ERRNO, CLS_CODE, CLS_INC, CLS_LIST, CLS_MAC, CLS_MAP, CLS_SHARE, CLS_SOURCE, EV_CLOSE, EV_OPEN, EV_READ, EV_SEEK, EV_WRITE,
                    scenario_from_json, scenario_to_json)
 
 ID = "C02"
@@ -450,8 +450,10 @@ def run_case(sim, case):
         # we do not know file classes from events directly: enumerate (class, op, nth) and stop when the fault
         # no longer fires
         n_fired = 0
-        for cls in (CLS_CODE, CLS_LIST, CLS_SHARE, CLS_INC, CLS_MAC, CLS_MAP):
-            for op in (EV_OPEN, EV_WRITE, EV_SEEK, EV_CLOSE):
+        for cls in (CLS_CODE, CLS_LIST, CLS_SHARE, CLS_INC, CLS_MAC, CLS_MAP, CLS_SOURCE):
+            for op in (EV_OPEN, EV_WRITE, EV_SEEK, EV_CLOSE, EV_READ):
+                if (op == EV_READ) != (cls in (CLS_SOURCE, CLS_INC)) and op in (EV_READ, EV_WRITE):
+                    continue  # inputs are read, outputs written
                 nth = 0
                 while nth < 400:
                     nth += 1
@@ -465,13 +467,13 @@ def run_case(sim, case):
                         if r.faults_fired:
                             fired_any = True
                             n_fired += 1
-                            k = "%s:%s" % ({EV_OPEN: "open", EV_WRITE: "write", EV_SEEK: "seek", EV_CLOSE: "close"}[op], errno_)
+                            k = "%s:%s" % ({EV_OPEN: "open", EV_WRITE: "write", EV_SEEK: "seek", EV_CLOSE: "close", EV_READ: "read"}[op], errno_)
                             acc["faults"][k] = acc["faults"].get(k, 0) + 1
                             if r.kind == 0 and r.code == 3:
                                 acc["probes"]["fatal_via_io_fault"] = acc["probes"].get("fatal_via_io_fault", 0) + 1
                             if r.kind == 0 and r.code == 0:
                                 acc["probes"]["io_fault_ignored_exit0"] = acc["probes"].get("io_fault_ignored_exit0", 0) + 1
-                                acc["obs"].add("an injected I/O error on an output file (op %s) went unreported: exit 0, no diagnostic (outside C02's text: no error was reported)" % k)
+                                acc["obs"].add("an injected I/O error on an %s file (op %s) went unreported: exit 0, no diagnostic (outside C02's text: no error was reported)" % ("input" if op == EV_READ else "output", k))
                             add_v(acc, vs, c, r)
                     if not fired_any:
                         break
